@@ -427,8 +427,10 @@ impl Region {
             false
         };
 
-        let meta = self.meta();
-        let meta_flushed = meta.flush(self.index(), &regions)?;
+        // The metadata guard is released before the file lock is taken below: the lock
+        // order is file -> meta (punch_holes holds the file lock while it write-locks each
+        // region's metadata), and holding meta here closed a cycle with a queued file writer.
+        let meta_flushed = self.meta().flush(self.index(), &regions)?;
 
         // Data MUST be durable before metadata — if we crash after metadata sync
         // but before data sync, metadata could reference unwritten data.
